@@ -18,7 +18,9 @@ N3  sign reduction: bintPlus, bintMinus, bintTimes and bintDivide handle a
     original sign afterwards (they belong to the caller), and where both are
     negated the second negation must be skipped when both are one object;
 N4  bintMod gives its result the sign of the dividend, taken before the
-    dividend is replaced by its magnitude.
+    dividend is replaced by its magnitude;
+N5  the single-word fast path of bintMod (bintModi, signed temporary) is
+    entered only for divisors below the sign bit of a word.
 """
 from . import common, c04_builtins
 from .common import AnalysisBroken, walk, strip, render, calls
@@ -218,6 +220,51 @@ def mod_sign(rep):
                       "sign of the dividend" % (render(guard)[:40] if guard else "no condition", flag[0]))
 
 
+def modi_precondition(rep):
+    """bintModi does its Horner step in `long tmp` and decides `if (tmp < 0) tmp += b`: that is modular arithmetic only while the
+    divisor is below 2^(W-1) for a W-bit long.  bintMod may therefore send to it only divisors of at most W-1 bits: the guard on
+    bintLength(b) must be strict against the word width."""
+    f = common.extract("bigint.c", "runtime", trees=["bintMod", "bintModi"])
+    callee = f.func("bintModi")
+    signed_use = [x for x in walk(callee["body"]) if x["k"] == "BinaryOperator" and x["op"] == "<" and
+                  (x["c"][0].get("tc") or "").startswith("i") and common.const_value(x["c"][1]) == 0]
+    if not signed_use:
+        raise AnalysisBroken("bintModi no longer tests a signed temporary against 0: its divisor range has to be re-derived")
+    fn = f.func("bintMod")
+    par = common.parents(fn["body"])
+    guarded = []
+    for c in calls(fn["body"], "bintModi"):
+        a1 = strip(c["c"][2])
+        if a1 is None or not any(y.get("callee") == "bintToULong" for y in walk(a1)):
+            continue                      # the immediate divisor path: an immediate is far below 2^(W-1)
+        cur, cond = c, None
+        while cur["id"] in par and cond is None:
+            p_ = par[cur["id"]]
+            if p_["k"] == "IfStmt" and any(y is cur for y in walk(p_["c"][1])):
+                cond = strip(p_["c"][0])
+            cur = p_
+        guarded.append((c, cond))
+    if len(guarded) != 1:
+        raise AnalysisBroken("bintMod: expected one bintModi(a, bintToULong(b)) call (found %d)" % len(guarded))
+    c, cond = guarded[0]
+    where = "bigint.c:%d (bintMod)" % c["l"]
+    if cond is None or cond["k"] != "BinaryOperator" or cond["op"] not in ("<", "<=") or \
+            not any(y.get("callee") == "bintLength" for y in walk(cond["c"][0])):
+        raise AnalysisBroken("bintMod: the guard of the single-word path is not `bintLength(b) < / <= constant`")
+    k = common.const_value(cond["c"][1])
+    if k is None:
+        raise AnalysisBroken("bintMod: the bound of the single-word path is not a constant")
+    bits = k - 1 if cond["op"] == "<" else k
+    word = 64
+    if bits <= word - 1:
+        rep.ok("N5", "mod:single-word-path-below-sign-bit", sample={"divisor bits at most": bits})
+    else:
+        rep.violation("N5", "mod:single-word-path-below-sign-bit", where,
+                      "bintMod sends divisors of up to %d bits to bintModi, whose Horner step works in a signed %d-bit temporary "
+                      "(`if (tmp < 0) tmp += b`): for a divisor with the top bit set the correction is skipped and the remainder is "
+                      "off by a multiple of 2^%d mod b; quotients still come from bintDivide, so a = q*b + r fails" % (bits, word, word))
+
+
 def run(tier, only=None):
     rep = common.Report("C11", tier, EXPLANATION)
     c04_builtins.carry_steps(rep, rule="N1")
@@ -234,6 +281,7 @@ def run(tier, only=None):
             rep.ok("N2", "no-narrow-shift:" + unit, nontrivial=False)
     sign_cases(rep)
     mod_sign(rep)
+    modi_precondition(rep)
     rep.floor("C11 structural obligations", rep.obligations, 15)
     rep.assumptions += ["a call of bintPlus/bintMinus/bintTimes/bintDivide on non-negative operands returns its mathematical result "
                         "(induction on the number of negative operands; the digit-level routines are not analysed)",
